@@ -13,7 +13,7 @@ pub fn prop() -> HistProp {
         max_ops: 40,
         max_prepop: 8,
         cases_quick: 8000,
-        cases_thorough: 40_000,
+        cases_thorough: 200_000,
         nontrivial: |s, c| s.errors_seen >= 3 && c.cfg.nesting() >= 1,
         rule: "every Err returned in typed histories on all backend stacks (altroot prefixes carry distinctive names so that a leaked inner path is recognisable): path() is not the placeholder, is the call's path, its destination or an ancestor/descendant of either, contains no inner-layer prefix or marker path (nor does Display); missing-in-existing-directory => FileNotFound, occupied create_dir => FileExists/DirectoryExists; non-trivial = case with >=3 errors that crossed >=1 adapter boundary; distinct by case hash; error triples (op kind, top adapter, class) are counted in labels",
         floors: vec![("distinct_nontrivial", 50), ("errors_checked", 3000)],
@@ -26,4 +26,263 @@ pub fn prop() -> HistProp {
             }
         },
     }
+}
+
+// ---------------------------------------------------------------------------------------------
+// additional parts: error items yielded by walk_dir, and errors of cross-filesystem transfers
+// ---------------------------------------------------------------------------------------------
+
+use crate::config::*;
+use crate::engine::*;
+use crate::exec::*;
+use crate::gen::*;
+use crate::model::*;
+use crate::util::{guarded, idx};
+use proptest::prelude::*;
+use serde_json::{json, Value};
+
+#[derive(Clone, Debug)]
+pub struct WalkCase {
+    pub cfg: Cfg,
+    pub pool: Vec<String>,
+    pub tree: Vec<RawEntry>,
+    pub pulls: u8,
+    pub victim: u16,
+    pub how: u8,
+}
+
+fn walk_strategy() -> impl Strategy<Value = WalkCase> {
+    (cfg_strategy(2), pool_strategy(), prepop_strategy(14), 0u8..6, any::<u16>(), any::<u8>())
+        .prop_map(|(cfg, pool, tree, pulls, victim, how)| WalkCase { cfg, pool, tree, pulls, victim, how })
+}
+
+fn test_walk(case: &WalkCase, st: &mut Stats, counting: bool) -> CaseResult {
+    let mut trace = vec![];
+    let mut errs = 0usize;
+    let r = guarded(|| -> Result<(), String> {
+        let mut pool = case.pool.clone();
+        if case.cfg.contains_overlay() {
+            for n in pool.iter_mut() {
+                n.truncate(200);
+            }
+        }
+        let nl = case.cfg.overlay_layers().max(1);
+        let prepop = make_prepop(&case.tree, &pool, 3, nl);
+        let built = build(&case.cfg, &prepop)?;
+        let model = union_model(&prepop, nl);
+        let dirs: Vec<String> = model.dirs().into_iter().filter(|d| !d.is_empty()).collect();
+        if dirs.is_empty() {
+            return Ok(());
+        }
+        let victim = dirs[idx(case.victim, dirs.len())].clone();
+        let mut it = built.root.walk_dir().map_err(|e| e.to_string())?;
+        for _ in 0..case.pulls {
+            match it.next() {
+                Some(Ok(p)) => trace.push(format!("yield {}", p.as_str())),
+                Some(Err(e)) => return Err(format!("walk_dir('') yielded an error before anything was removed: {}", e)),
+                None => break,
+            }
+        }
+        // remove (or replace by a file) a directory while the iterator is live
+        let vp = at(&built.root, &victim).map_err(|e| e.to_string())?;
+        let removed = vp.remove_dir_all().is_ok();
+        if removed && case.how % 3 == 0 {
+            let _ = vp.create_file();
+        }
+        trace.push(format!("remove_dir_all('{}') -> {}{}", victim, removed, if removed && case.how % 3 == 0 { ", re-created as a file" } else { "" }));
+        let op = Op::WalkDir(String::new());
+        let mut guard = 0;
+        while let Some(item) = it.next() {
+            guard += 1;
+            if guard > 5000 {
+                return Err("walk does not terminate".into());
+            }
+            match item {
+                Ok(p) => trace.push(format!("yield {}", p.as_str())),
+                Err(e) => {
+                    errs += 1;
+                    let info = err_info(&e, "item");
+                    trace.push(format!("yield Err[{:?} path='{}']", info.class, info.path));
+                    crate::hist::check_error(&op, &info)?;
+                    if !is_within(&info.path, &victim) && !is_within(&victim, &info.path) {
+                        return Err(format!("walk_dir error item names '{}', which is neither the removed directory '{}' nor inside it ({})", info.path, victim, info.display));
+                    }
+                }
+            }
+        }
+        Ok(())
+    });
+    let mk = |m: String| Failure {
+        message: format!("stack {}: {}\n    {}", case.cfg.render(), m, trace.join("\n    ")),
+        replay: json!({"kind": "c12-walk", "cfg": case.cfg.to_json(), "pool": case.pool, "tree": case.tree.iter().map(crate::hist::entry_to_json).collect::<Vec<_>>(), "pulls": case.pulls, "victim": case.victim, "how": case.how}),
+    };
+    match r {
+        Err(p) => Err(mk(format!("PANIC: {}", p))),
+        Ok(Err(m)) => Err(mk(m)),
+        Ok(Ok(())) => {
+            if counting {
+                st.label("walk_cases");
+                st.label_n("walk_error_items_checked", errs as u64);
+                st.label_n("errors_checked", errs as u64);
+                if errs > 0 {
+                    st.nontrivial.insert(crate::util::fnv_str(&format!("{:?}", case)));
+                    st.label(&format!("errtriple:walk_item|{}|any", case.cfg.top()));
+                }
+                st.sample(json!({"part": "walk_dir with a directory removed while iterating", "stack": case.cfg.render(), "trace": trace.iter().take(12).collect::<Vec<_>>()}), errs > 0);
+            }
+            Ok(())
+        }
+    }
+}
+
+#[derive(Clone, Debug)]
+pub struct XferCase {
+    pub cfg_a: Cfg,
+    pub cfg_b: Cfg,
+    pub pool: Vec<String>,
+    pub tree_a: Vec<RawEntry>,
+    pub tree_b: Vec<RawEntry>,
+    pub ops: Vec<RawOp>,
+}
+
+fn xfer_strategy() -> impl Strategy<Value = XferCase> {
+    (cfg_strategy(2), cfg_strategy(2), pool_strategy(), prepop_strategy(8), prepop_strategy(6), proptest::collection::vec(rawop_strategy(), 1..10))
+        .prop_map(|(cfg_a, cfg_b, pool, tree_a, tree_b, ops)| XferCase { cfg_a, cfg_b, pool, tree_a, tree_b, ops })
+}
+
+fn test_xfer(case: &XferCase, st: &mut Stats, counting: bool) -> CaseResult {
+    let mut trace = vec![];
+    let mut errs = 0usize;
+    let r = guarded(|| -> Result<(), String> {
+        let mut pool = case.pool.clone();
+        if case.cfg_a.contains_overlay() || case.cfg_b.contains_overlay() {
+            for n in pool.iter_mut() {
+                n.truncate(200);
+            }
+        }
+        let uni = crate::observe::universe(&pool, 3);
+        let ctx = Ctx { pool: &pool, depth: 3, uni: &uni };
+        let a = build(&case.cfg_a, &vec![])?;
+        let b = build(&case.cfg_b, &vec![])?;
+        for (_, p, n) in make_prepop(&case.tree_a, &pool, 3, 1) {
+            write_entry(&a.root, &p, &n)?;
+        }
+        for (_, p, n) in make_prepop(&case.tree_b, &pool, 3, 1) {
+            write_entry(&b.root, &p, &n)?;
+        }
+        for raw in &case.ops {
+            let ta = crate::observe::snapshot(&a.root).tree;
+            let tb = crate::observe::snapshot(&b.root).tree;
+            // transfers only: source chosen on A, destination on B
+            let kind = 15 + (raw.kind % 4) as usize;
+            let op = resolve_kind(kind, raw, &ta, &ctx, Profile::Untyped);
+            let op = match op {
+                Op::CopyFile(s, _) | Op::MoveFile(s, _) | Op::CopyDir(s, _) | Op::MoveDir(s, _) if s.is_empty() => Op::Exists(s),
+                Op::CopyFile(s, _) => Op::CopyFile(s, choose(&tb, &ctx, [Want::AbsentChild, Want::Existing, Want::DeepAbsent, Want::BelowFile][(raw.mode2 % 4) as usize], raw.c, raw.d)),
+                Op::MoveFile(s, _) => Op::MoveFile(s, choose(&tb, &ctx, [Want::AbsentChild, Want::Existing, Want::DeepAbsent, Want::BelowFile][(raw.mode2 % 4) as usize], raw.c, raw.d)),
+                Op::CopyDir(s, _) => Op::CopyDir(s, choose(&tb, &ctx, [Want::AbsentChild, Want::Existing, Want::DeepAbsent, Want::BelowFile][(raw.mode2 % 4) as usize], raw.c, raw.d)),
+                Op::MoveDir(s, _) => Op::MoveDir(s, choose(&tb, &ctx, [Want::AbsentChild, Want::Existing, Want::DeepAbsent, Want::BelowFile][(raw.mode2 % 4) as usize], raw.c, raw.d)),
+                other => other,
+            };
+            if op.dest().map(|d| d.is_empty()).unwrap_or(true) {
+                continue;
+            }
+            let out = exec2(&a.root, &b.root, &op);
+            trace.push(format!("[A->B] {} -> {}", op.render(), out.class_str()));
+            match &out {
+                Outcome::Panic(m) => return Err(format!("{} panicked: {}", op.render(), m)),
+                Outcome::Err(e) => {
+                    errs += 1;
+                    crate::hist::check_error(&op, e)?;
+                }
+                Outcome::Ok(_) => {}
+            }
+        }
+        Ok(())
+    });
+    let mk = |m: String| Failure {
+        message: format!("A = {} | B = {}: {}\n    {}", case.cfg_a.render(), case.cfg_b.render(), m, trace.join("\n    ")),
+        replay: json!({"kind": "c12-xfer", "cfg_a": case.cfg_a.to_json(), "cfg_b": case.cfg_b.to_json(), "pool": case.pool,
+            "tree_a": case.tree_a.iter().map(crate::hist::entry_to_json).collect::<Vec<_>>(), "tree_b": case.tree_b.iter().map(crate::hist::entry_to_json).collect::<Vec<_>>(),
+            "ops": case.ops.iter().map(crate::hist::rawop_to_json).collect::<Vec<_>>()}),
+    };
+    match r {
+        Err(p) => Err(mk(format!("PANIC: {}", p))),
+        Ok(Err(m)) => Err(mk(m)),
+        Ok(Ok(())) => {
+            if counting {
+                st.label("cross_filesystem_transfer_cases");
+                st.label_n("errors_checked", errs as u64);
+                st.label_n("cross_filesystem_errors_checked", errs as u64);
+                if errs >= 2 {
+                    st.nontrivial.insert(crate::util::fnv_str(&format!("{:?}", case)));
+                }
+                st.sample(json!({"part": "cross-filesystem transfers", "A": case.cfg_a.render(), "B": case.cfg_b.render(), "trace": trace.iter().take(8).collect::<Vec<_>>()}), errs >= 2);
+            }
+            Ok(())
+        }
+    }
+}
+
+pub fn replay(v: &Value) -> CaseResult {
+    let strs = |k: &str| -> Vec<String> { v.get(k).and_then(|x| x.as_array()).map(|a| a.iter().filter_map(|s| s.as_str().map(|s| s.to_string())).collect()).unwrap_or_default() };
+    let entries = |k: &str| -> Vec<RawEntry> { v.get(k).and_then(|x| x.as_array()).map(|a| a.iter().filter_map(crate::hist::entry_from_json).collect()).unwrap_or_default() };
+    let mut st = Stats::default();
+    match v.get("kind").and_then(|k| k.as_str()) {
+        Some("c12-walk") => test_walk(
+            &WalkCase {
+                cfg: Cfg::from_json(v.get("cfg").unwrap_or(&Value::Null)).unwrap_or(Cfg::Mem),
+                pool: strs("pool"),
+                tree: entries("tree"),
+                pulls: v.get("pulls").and_then(|x| x.as_u64()).unwrap_or(0) as u8,
+                victim: v.get("victim").and_then(|x| x.as_u64()).unwrap_or(0) as u16,
+                how: v.get("how").and_then(|x| x.as_u64()).unwrap_or(0) as u8,
+            },
+            &mut st,
+            false,
+        ),
+        Some("c12-xfer") => test_xfer(
+            &XferCase {
+                cfg_a: Cfg::from_json(v.get("cfg_a").unwrap_or(&Value::Null)).unwrap_or(Cfg::Mem),
+                cfg_b: Cfg::from_json(v.get("cfg_b").unwrap_or(&Value::Null)).unwrap_or(Cfg::Mem),
+                pool: strs("pool"),
+                tree_a: entries("tree_a"),
+                tree_b: entries("tree_b"),
+                ops: v.get("ops").and_then(|x| x.as_array()).map(|a| a.iter().filter_map(crate::hist::rawop_from_json).collect()).unwrap_or_default(),
+            },
+            &mut st,
+            false,
+        ),
+        _ => prop().replay(v),
+    }
+}
+
+pub fn run(ctx: &RunCtx) -> i32 {
+    let hp = prop();
+    let reg = crate::regress::run_for(&ctx.id, &|v| if v.get("kind").and_then(|k| k.as_str()) == Some("script") { hp.replay_strict(v) } else { replay(v) });
+    if let Some((path, msg)) = &reg.violation {
+        println!("--- regression input fails ---\n{}", msg);
+        println!("VIOLATION property={} replay={}", ctx.id, path);
+        return 1;
+    }
+    let (mut stats, mut failure) = run_sharded(
+        ctx,
+        "hist",
+        ctx.tier.pick(hp.cases_quick, hp.cases_thorough),
+        || crate::hist::hist_strategy((hp.cfgs)(), hp.max_ops, hp.max_prepop),
+        |case, st, counting| hp.test(case, st, counting),
+    );
+    if failure.is_none() {
+        let (s, f) = run_sharded(ctx, "walk", ctx.tier.pick(4000, 200_000), walk_strategy, test_walk);
+        stats.merge(s);
+        failure = f;
+    }
+    if failure.is_none() {
+        let (s, f) = run_sharded(ctx, "xfer", ctx.tier.pick(2500, 100_000), xfer_strategy, test_xfer);
+        stats.merge(s);
+        failure = f;
+    }
+    let rule = format!("{}; PLUS (b) walk_dir over generated trees with a directory removed (or replaced by a file) after k items were pulled: every Err item must name the vanished directory or something inside it, never the placeholder or an inner path; PLUS (c) copy/move file/dir between two different filesystem instances with free, occupied, deep-absent and below-file destinations: every Err names the source or destination path", hp.rule);
+    write_evidence(ctx, "exploration", &rule, &stats, json!({"regress_replayed": reg.replayed}), &hp.assumptions, failure.is_some() as u32);
+    finish(ctx, &stats, &failure, &[("distinct_nontrivial", 50), ("errors_checked", 3000), ("walk_error_items_checked", 20), ("cross_filesystem_errors_checked", 200)])
 }
